@@ -78,7 +78,7 @@ PROPS = {
         technique='Kani/CBMC bounded model checking, inductive: one safe mutator call from an arbitrary valid buffer with an arbitrary valid argument, post-state re-validated against the grammar table; handle invariant for sequences',
         level_text='Well-formedness is an inductive invariant: for every valid buffer text and every valid argument within the byte bounds, after one call of each setter, path edit (push/pop/clear/symbolic_push/symbolic_append/normalize) or authority edit the text is again accepted by the type grammar (table twin of the current automaton), is UTF-8, and no call panics, overflows or indexes out of bounds; the path/authority handle is shown to view exactly the fresh path()/authority() after each call, so sequences through one handle reduce to sequences of fresh handles (2-op same-handle harness as a direct cross-check in the thorough tier). In-place resolve is not covered (C06).',
         level_note=BMC_NOTE + ' Heap: buffers have concrete capacity 40; Vec::resize is replaced by an in-capacity version that asserts new_len <= capacity (a buffer that starts empty gets one allocation of that capacity).',
-        outside="buffers beyond 3-5 bytes, arguments beyond 1-3 bytes, reallocation, spilled SmallVecs, in-place resolve(); in the quick tier: set_path, push, pop, set_userinfo(Some), set_host and the constructors only (the other mutators' harnesses are listed under C04 in the thorough tier and decide C05/C10/C11/C09 in both)",
+        outside="buffers beyond 3-5 bytes, arguments beyond 1-3 bytes, reallocation, spilled SmallVecs, in-place resolve(); in the quick tier: set_path, clear, set_userinfo(Some), set_host and the constructors only (the other mutators' harnesses are listed under C04 in the thorough tier and decide C05/C10/C11/C09 in both)",
         stubs=[TABLE_STUB, 'Vec::resize -> in-capacity version (asserts)', 'SmallVec::{push,extend_from_slice} -> pointer-loop versions asserting no spill; SmallVec::try_grow -> panic', 'mem::forget at harness end'],
         assumptions=['one inductive step per mutator; the invariant is: text accepted by the type grammar'],
     ),
@@ -118,7 +118,7 @@ PROPS = {
         technique='Kani/CBMC bounded model checking of each authority edit from an arbitrary valid reference with an authority, result compared bytewise with a section 3.2 recomposition; handle invariant',
         level_text='For every valid reference with an authority and every valid new user info / host / port (set or removed; one harness per operation and per set/remove) within the byte bounds CBMC proves the buffer afterwards is bytewise the original with exactly that sub-component replaced (compared in place with the section 3.2 recomposition), is valid, and that the handle views exactly the new authority. In the quick tier (text <= 3 bytes, argument <= 1-2 bytes) the handle statement is arithmetic - same start pointer, length moved by exactly the length change of the text, which with the bytewise comparison pins the handle to the replaced piece; the thorough harnesses (text <= 4 bytes) compare pointer and length with a fresh authority() parse of the buffer, which alone costs as much as the edit (5-10 min, 8-20 GB of CBMC for one authority edit whatever is asserted afterwards). The thorough tier also has 4-6 byte texts and a two-op harness with symbolic op choice through ONE handle compared with the same ops through fresh handles (stretch).',
         level_note=BMC_NOTE + ' Heap: buffers have concrete capacity 40; Vec::resize is replaced by an in-capacity version that asserts new_len <= capacity (a buffer that starts empty gets one allocation of that capacity).',
-        outside='references beyond 3 bytes (quick) / 4-6 bytes (thorough stretch), arguments beyond 1-2 bytes, set_port(Some) in the quick tier, sequences longer than two through one handle',
+        outside='references beyond 3 bytes (quick) / 4-6 bytes (thorough stretch), arguments beyond 1-2 bytes, set_port (set or removed) in the quick tier, sequences longer than two through one handle',
         stubs=[TABLE_STUB, 'Vec::resize -> in-capacity version (asserts)'],
         assumptions=['oracle: harness/src/oracle.rs::split_auth + recomposition'],
     ),
